@@ -479,6 +479,9 @@ class Function:
         for b in self.blocks.values():
             for i, e in enumerate(b.elems):
                 self.where.setdefault(e.id, (b, i))
+        if normalise:
+            from . import idioms
+            idioms.apply(self)
 
     def pristine(self):
         """the same function without the fact-level normalisations (aliases, copy propagation, canonical compound
